@@ -27,8 +27,11 @@ def main():
                     if isinstance(t, ast.Name):
                         names.add(t.id)
         modules[m] = sorted(names)
+    ctor = {q: [list(x) for x in statecheck.ctor_param_table(cd)] for q, cd in sorted(raw.classes.items())}
+    ctor = {q: v for q, v in ctor.items() if v}
     with open(os.path.join(VERIF, "sa", "known_attrs.json"), "w") as fh:
-        json.dump({"classes": classes, "modules": modules}, fh, indent=0, sort_keys=True)
+        json.dump({"classes": classes, "modules": modules, "ctor": ctor}, fh, indent=0, sort_keys=True)
+    print("%d constructor argument -> attribute pairs" % sum(len(v) for v in ctor.values()))
     print("%d classes, %d attributes" % (len(classes), sum(len(v) for v in classes.values())))
 
 
